@@ -34,10 +34,14 @@ pub enum Mut {
     Oversize(u16),
     /// replace the n-th run of ASCII digits of the document (a length, offset, size, port, status, JSON number ...) by the k-th extreme value
     Number(u16, u8),
+    /// change the case of the n-th ASCII letter (keywords, units, names, hex digits and tokens are where case matters)
+    Case(u16),
 }
 
-pub const EXTREME_NUMBERS: [&str; 24] = ["0", "1", "-1", "2147483647", "2147483648", "4294967295", "4294967296", "9223372036854775807", "9223372036854775808", "18446744073709551615", "18446744073709551616",
-    "170141183460469231731687303715884105727", "340282366920938463463374607431768211456", "99999999999999999999999999999999999999999999", "", "00000000000000000005", "1e9", "0x10", "+5", " 7", "1.5", "-0", "65535", "65536"];
+pub const EXTREME_NUMBERS: [&str; 30] = ["0", "1", "-1", "2147483647", "2147483648", "4294967295", "4294967296", "9223372036854775807", "9223372036854775808", "18446744073709551615", "18446744073709551616",
+    "170141183460469231731687303715884105727", "340282366920938463463374607431768211456", "99999999999999999999999999999999999999999999", "", "00000000000000000005", "1e9", "0x10", "+5", " 7", "1.5", "-0", "65535", "65536",
+    // sizes no machine can allocate but every size type can hold (2^40, 2^48, 2^62, isize::MAX - 1), and just above what fits a 16-bit / 31-bit length
+    "1099511627776", "281474976710656", "4611686018427387904", "9223372036854775806", "32768", "1073741824"];
 
 #[derive(Clone, Debug, Serialize, Deserialize, PartialEq, Eq, Hash)]
 pub struct ReqCase { pub base: Base, pub muts: Vec<Mut> }
@@ -80,6 +84,7 @@ pub fn apply_muts(v: &mut Vec<u8>, muts: &[Mut], bufsize: usize) {
             Mut::DropLf(n) => { if let Some(i) = nth_pos(v, b'\n', *n) { v.remove(i); } }
             Mut::DupLf(n) => { if let Some(i) = nth_pos(v, b'\n', *n) { v.insert(i, b'\n'); } }
             Mut::Flip(p, bit) => { if !v.is_empty() { let i = pick_idx(*p, v.len()); v[i] ^= 1 << (bit % 8); } }
+            Mut::Case(n) => { let pos: Vec<usize> = v.iter().enumerate().filter(|(_, b)| b.is_ascii_alphabetic()).map(|(i, _)| i).take(4096).collect(); if !pos.is_empty() { let i = pos[pick_idx(*n, pos.len())]; v[i] ^= 0x20; } }
             Mut::ManyHeaders { count, width } => {
                 let at = super::util::find_sub(v, b"\r\n\r\n").map(|p| p + 2).unwrap_or(v.len());
                 let tail = v.split_off(at);
@@ -106,7 +111,8 @@ pub fn apply_muts(v: &mut Vec<u8>, muts: &[Mut], bufsize: usize) {
                     v.extend_from_slice(&tail);
                 }
             }
-            Mut::Oversize(delta) => { let want = bufsize + (*delta as usize % 3000); while v.len() < want { v.push(b'A' + (v.len() % 26) as u8); } }
+            // three quarters of the values: up to 3000 bytes beyond the buffer; the top quarter: up to 650 KB beyond it
+            Mut::Oversize(delta) => { let want = bufsize + if *delta < 49152 { *delta as usize % 3000 } else { (*delta as usize - 49152) * 40 }; while v.len() < want { v.push(b'A' + (v.len() % 26) as u8); } }
         }
     }
 }
@@ -157,7 +163,10 @@ pub fn fixed_tree() -> TreeSpec {
             EntrySpec::File { name: "empty.bin".into(), size: 0 },
             EntrySpec::File { name: "é.txt".into(), size: 64 },
             EntrySpec::File { name: "noext".into(), size: 100 },
-            EntrySpec::Dir { name: "sub".into(), index: Some(200), html_twin: None, entries: vec![EntrySpec::File { name: "x.json".into(), size: 50 }, EntrySpec::Dir { name: "deep".into(), index: None, html_twin: None, entries: vec![EntrySpec::File { name: "y.png".into(), size: 4097 }] }] },
+            EntrySpec::Dir { name: "sub".into(), index: Some(200), html_twin: None, entries: vec![EntrySpec::File { name: "x.json".into(), size: 50 },
+                // links with relative texts below the root: their texts resolve from the link's own directory, not from the server's working directory
+                EntrySpec::LinkToFile { name: "rel.json".into(), target: 7, style: 0 },
+                EntrySpec::Dir { name: "deep".into(), index: None, html_twin: None, entries: vec![EntrySpec::File { name: "y.png".into(), size: 4097 }, EntrySpec::LinkToFile { name: "up.txt".into(), target: 0, style: 2 }] }] },
             EntrySpec::Dir { name: "noindex".into(), index: None, html_twin: None, entries: vec![EntrySpec::File { name: "z.css".into(), size: 20 }] },
             EntrySpec::LinkToFile { name: "link.txt".into(), target: 0, style: 0 },
             EntrySpec::LinkToOutsideDir { name: "outdir".into() },
@@ -165,7 +174,7 @@ pub fn fixed_tree() -> TreeSpec {
     }
 }
 
-pub const FIXED_PATHS: [&str; 23] = ["/", "/a.txt", "/big.bin", "/huge.bin", "/page.html", "/page", "/empty.bin", "/é.txt", "/noext", "/sub", "/sub/", "/sub/index.html", "/sub/x.json", "/sub/deep/y.png",
+pub const FIXED_PATHS: [&str; 25] = ["/sub/rel.json", "/sub/deep/up.txt", "/", "/a.txt", "/big.bin", "/huge.bin", "/page.html", "/page", "/empty.bin", "/é.txt", "/noext", "/sub", "/sub/", "/sub/index.html", "/sub/x.json", "/sub/deep/y.png",
     "/noindex", "/noindex/", "/noindex/z.css", "/link.txt", "/outdir/f.txt", "/missing", "/style.css", "/script.js", "/favicon.svg"];
 
 // ---- strategies -----------------------------------------------------------------------------------
@@ -270,6 +279,8 @@ pub fn headers_strategy() -> impl Strategy<Value = Vec<(String, Bytes)>> {
         2 => prop::sample::select(vec!["application/x-www-form-urlencoded", "multipart/form-data; boundary=XB", "multipart/form-data", "multipart/form-data; boundary=", "multipart/form-data; boundary=--", "text/plain", "APPLICATION/X-WWW-FORM-URLENCODED", "multipart/form-data; boundary=\u{0}"]).prop_map(|s| ("Content-Type".to_string(), Bytes(s.as_bytes().to_vec()))),
         1 => hostile_text().prop_map(|v| ("Content-Type".to_string(), v)),
         3 => prop::sample::select(vec!["0", "5", "a", "", "-1", "99999999999999999999999999", "1 2", "0x10", "18446744073709551615", "18446744073709551616", " 7", "7 "]).prop_map(|s| ("Content-Length".to_string(), Bytes(s.as_bytes().to_vec()))),
+        // a length field with any of the extreme numbers (what a body reader sizes, counts down or adds to)
+        2 => prop::sample::select(EXTREME_NUMBERS.to_vec()).prop_map(|s| ("Content-Length".to_string(), Bytes(s.as_bytes().to_vec()))),
         2 => ("[A-Za-z][A-Za-z0-9-]{0,20}", hostile_text()),
         1 => ("[ -~&&[^:]]{0,12}", hostile_text()),
     ];
@@ -347,7 +358,8 @@ pub fn mut_strategy() -> impl Strategy<Value = Mut> {
         1 => (any::<u16>(), 0u8..8).prop_map(|(p, b)| Mut::Flip(p, b)),
         1 => (prop_oneof![4 => 1u16..200, 2 => 200u16..3000, 2 => 3000u16..6000], prop_oneof![3 => Just(2u8), 2 => Just(3u8), 2 => 4u8..40]).prop_map(|(count, width)| Mut::ManyHeaders { count, width }),
         1 => any::<u16>().prop_map(Mut::Oversize),
-        3 => (any::<u16>(), 0u8..24).prop_map(|(n, k)| Mut::Number(n, k)),
+        3 => (any::<u16>(), 0u8..30).prop_map(|(n, k)| Mut::Number(n, k)),
+        1 => any::<u16>().prop_map(Mut::Case),
     ]
 }
 
